@@ -673,7 +673,8 @@ def truthy : JVal → Bool
   | _ => true
 
 /-- the schema function, wrapped by `_with_consistency_check` when it is not the file reader -/
-def schemaFn (files : List (Comps × Content)) (schema : Schema) (d : Comps) : Except Err (Option JVal) :=
+def schemaFn (hash : JVal → String) (files : List (Comps × Content)) (schema : Schema) (d : Comps) :
+    Except Err (Option JVal) :=
   match schema with
   | .none => readSp files d
   | .table t =>
@@ -681,14 +682,14 @@ def schemaFn (files : List (Comps × Content)) (schema : Schema) (d : Comps) : E
     | .error e => .error e
     | .ok dflt =>
       match lookupTable d t, dflt with
-      | some sp, some sd => if truthy sp && truthy sd && !pyEq sd sp then .error .statepointParsing else .ok (some sp)
+      | some sp, some sd => if hash sd != hash sp then .error .statepointParsing else .ok (some sp)
       | r, _ => .ok r
   | .pattern sc =>
     match readSp files d with
     | .error e => .error e
     | .ok dflt =>
       match parsePath sc (if d = [] then ["."] else d), dflt with
-      | some sp, some sd => if truthy sp && truthy sd && !pyEq sd sp then .error .statepointParsing else .ok (some sp)
+      | some sp, some sd => if hash sd != hash sp then .error .statepointParsing else .ok (some sp)
       | r, _ => .ok r
 
 /-- which directories an analyser does not look at, and whether skipped ones are remembered -/
@@ -803,7 +804,7 @@ def dirnameC (n : Comps) : Comps := n.dropLast
 def importZip (hash : JVal → String) (schema : Schema) (dst : Project)
     (files : List (Comps × Content)) : ImportResult :=
   let dirs := sortDirs (dedup (files.map (fun fc => dirnameC fc.1)))
-  match scan zipPolicy hash (schemaFn files schema) (dst.map (·.id)) dirs [] [] with
+  match scan zipPolicy hash (schemaFn hash files schema) (dst.map (·.id)) dirs [] [] with
   | .error e => ⟨dst, some e, []⟩
   | .ok maps =>
     if !idsNodup (maps.map (·.2.1)) then ⟨dst, some .statepointParsing, []⟩
@@ -812,7 +813,7 @@ def importZip (hash : JVal → String) (schema : Schema) (dst : Project)
 /-- `_analyze_tarfile_for_import` + executors.  `dirs` = names of the directory members -/
 def importTar (hash : JVal → String) (schema : Schema) (dst : Project)
     (files : List (Comps × Content)) (dirs : List Comps) : ImportResult :=
-  match scan tarPolicy hash (schemaFn files schema) (dst.map (·.id)) (sortDirs dirs) [] [] with
+  match scan tarPolicy hash (schemaFn hash files schema) (dst.map (·.id)) (sortDirs dirs) [] [] with
   | .error e => ⟨dst, some e, []⟩
   | .ok maps =>
     if !idsNodup (maps.map (·.2.1)) then ⟨dst, some .statepointParsing, []⟩
@@ -847,7 +848,7 @@ def crawl (hash : JVal → String) (sf : Comps → Except Err (Option JVal))
     listing order of the file system, an input of the model; `walkOrder` is a possible one) -/
 def importDir (hash : JVal → String) (schema : Schema) (dst : Project)
     (files : List (Comps × Content)) (order : List Comps) : ImportResult :=
-  crawl hash (schemaFn files schema) files order [] [] ⟨dst, none, []⟩
+  crawl hash (schemaFn hash files schema) files order [] [] ⟨dst, none, []⟩
 
 /-- a top-down visiting order of the tree that holds `files` -/
 def walkOrder (files : List (Comps × Content)) : List Comps := sortDirs (allDirs files)
